@@ -47,7 +47,7 @@ Step == /\ t < TN /\ ~fin
               \E np \in {[k \in CNeg1..(t + 1) |-> IF k = t + 1 THEN x ELSE path[k]]} :
                 /\ path' = np
                 /\ out' = IF t + 1 < TN THEN <<>>
-                          ELSE [src |-> Source(Model(sc.id)), linear |-> Model(sc.id).linear, vars |-> Model(sc.id).vars,
+                          ELSE [src |-> Source(Model(sc.id)), srcb |-> SourceB(Model(sc.id)), linear |-> Model(sc.id).linear, vars |-> Model(sc.id).vars,
                                 logv |-> Model(sc.id).logv, shocks |-> Model(sc.id).shocks, mvars |-> Model(sc.id).mvars,
                                 mshocks |-> Model(sc.id).mshocks, steady |-> Steady(sc.id), growth |-> Growth(sc.id),
                                 u |-> [k \in 1..TN |-> Prof(sc.id, sc.u)[k]], a |-> [k \in 1..(TN + 2) |-> Prof(sc.id, sc.a)[k]],
